@@ -314,6 +314,9 @@ def task_fma(params, rec):
             with numpy.errstate(all="ignore"):
                 fallback = (x * y).astype(dt) + z  # what the documented fix_overflow fallback (xyh = x*y, xyl = 0) amounts to: RN(RN(x*y) + z)
 
+            tz_ = numpy.frompyfunc(lambda n_: ((int(n_) & -int(n_)).bit_length() - 1) if int(n_) != 0 else 10**6, 1, 1)
+            prod_underflow = ((tz_(ux).astype(numpy.int64) + tz_(uy).astype(numpy.int64)) < -k) & (ux != 0).astype(bool) & (uy != 0).astype(bool)
+
             def ovf_groups(r_, sl=slice(None)):
                 """KF-C11-fma-overflow-fallback is the mechanism 'the fallback drops the error term': only results equal to RN(RN(x*y)+z) belong to it;
                 anything else in the internal-overflow region (an infinity, a NaN, another value) is reported under its own site"""
@@ -322,7 +325,10 @@ def task_fma(params, rec):
                 fb = fallback[sl]
                 # when RN(RN(x*y)+z) itself overflows, the fallback path ends in an infinity or (inf - inf in the following 2Sum) a NaN
                 same = numpy.where(numpy.isfinite(fb), r_ == fb, ~numpy.isfinite(r_))
-                return dict(dekker_internal_overflow=o & same, internal_overflow_result_is_not_the_documented_fallback=o & ~same)
+                # the other end of the range: the exact product x*y has bits below the smallest subnormal, so its Dekker partial products are rounded
+                # (KF-C11-fma-product-underflow); kept apart from everything else so that only small errors there are attributed to it
+                return dict(dekker_internal_overflow=o & same, internal_overflow_result_is_not_the_documented_fallback=o & ~same,
+                            product_bits_below_smallest_subnormal=prod_underflow[sl] & ~o)
 
             for v in FMA_VARIANTS:
                 name = f"{v['algorithm']}:fo={int(v['fix_overflow'])}:pz={int(v['possibly_zero_z'])}"
